@@ -720,6 +720,27 @@ pub fn run(args: &Args) -> i32 {
     for p in parallel(args.jobs, scripts, Evidence::new, |n, ev| run_script(seed, n, ev)) {
         ev.merge(p);
     }
+    // real schedules: the production TCP client task under multi-thread stress (net engine)
+    {
+        let exe = std::env::current_exe().ok().and_then(|p| p.parent().map(|d| d.join("vnet")));
+        let out = verif_root().join("out").join(format!("c10net-{}.json", std::process::id()));
+        let _ = std::fs::create_dir_all(verif_root().join("out"));
+        match exe {
+            Some(exe) if exe.exists() => {
+                let st = std::process::Command::new(&exe)
+                    .args(["c10net", "--tier", args.tier.name(), "--seed", &(args.seed as i64).to_string(), "--out"])
+                    .arg(&out)
+                    .stdout(std::process::Stdio::null())
+                    .status();
+                match (st, std::fs::read_to_string(&out).ok().and_then(|t| serde_json::from_str::<serde_json::Value>(&t).ok())) {
+                    (Ok(s), Some(v)) if s.success() => ev.merge(Evidence::from_json(&v)),
+                    _ => ev.inconclusive("the net engine did not deliver the stress part of the C10 evidence"),
+                }
+                let _ = std::fs::remove_file(&out);
+            }
+            _ => ev.inconclusive("vnet binary not found next to vsim"),
+        }
+    }
     let meta = Meta {
         property_id: "C10",
         level: "exploration",
@@ -733,6 +754,7 @@ pub fn run(args: &Args) -> i32 {
         floors: vec![
             ("requests_tracked".into(), args.tier.pick(1_500_000, 40_000_000)),
             ("distinct_reference_state_x_event_pairs".into(), 0),
+            ("net_requests".into(), args.tier.pick(20_000, 700_000)),
         ],
         min_classes: 18,
     };
